@@ -1,10 +1,22 @@
 #!/bin/bash
 # Build the harness from a private snapshot of the sources in which the modules other agents are
-# still writing (listed in $STUBS, default none) are replaced by their committed version.
+# still writing (listed in $STUBS, default none) are replaced by their committed version
+# (helper modules <m>_*.rs that are not committed yet are dropped together with their `mod` line).
 set -e
 SNAP=/var/tmp/vpsnap/harness
 mkdir -p $SNAP
 rsync -a --delete --exclude target /verif/harness/ $SNAP/
-for m in $STUBS; do git -C /verif show HEAD:harness/vp/src/props/$m.rs > $SNAP/vp/src/props/$m.rs; done
+for m in $STUBS; do
+  git -C /verif show HEAD:harness/vp/src/props/$m.rs > $SNAP/vp/src/props/$m.rs
+  git -C /verif show HEAD:harness/vp/Cargo.toml > $SNAP/vp/Cargo.toml
+  for f in $SNAP/vp/src/props/${m}_*.rs; do
+    [ -e "$f" ] || continue
+    b=$(basename $f .rs)
+    if ! git -C /verif cat-file -e HEAD:harness/vp/src/props/$b.rs 2>/dev/null; then
+      rm -f $f; sed -i "/mod $b;/d" $SNAP/vp/src/props/mod.rs
+    fi
+  done
+done
 cd $SNAP && CARGO_NET_OFFLINE=true CARGO_TARGET_DIR=/var/tmp/vp-main-target cargo build --profile verif 2>&1 | grep -E "^error" -A14 | head -60
+if [ ${PIPESTATUS[0]} -ne 0 ]; then echo "BUILD FAILED"; exit 1; fi
 echo "built: /var/tmp/vp-main-target/verif/vp"
